@@ -11,7 +11,12 @@ def varoptTunables : VarOpt.Tunables :=
     tolNum := DSGen.varopt_COERCER_TOL_num, tolDen := DSGen.varopt_COERCER_TOL_den,
     erfA := [(DSGen.bbp_ERF_A1_num, DSGen.bbp_ERF_A1_den), (DSGen.bbp_ERF_A2_num, DSGen.bbp_ERF_A2_den),
              (DSGen.bbp_ERF_A3_num, DSGen.bbp_ERF_A3_den), (DSGen.bbp_ERF_A4_num, DSGen.bbp_ERF_A4_den),
-             (DSGen.bbp_ERF_A5_num, DSGen.bbp_ERF_A5_den), (DSGen.bbp_ERF_A6_num, DSGen.bbp_ERF_A6_den)] }
+             (DSGen.bbp_ERF_A5_num, DSGen.bbp_ERF_A5_den), (DSGen.bbp_ERF_A6_num, DSGen.bbp_ERF_A6_den)],
+    deserializeM0 := DSGen.varopt_deserializeM0,
+    validModeSlack := DSGen.varopt_validModeSlack,
+    slackNum := DSGen.varopt_VALID_MODE_SLACK_num, slackDen := DSGen.varopt_VALID_MODE_SLACK_den,
+    coercerOuterTau := DSGen.varopt_coercerOuterTau, coercerHeapify := DSGen.varopt_coercerHeapify,
+    coercerRelTol := DSGen.varopt_coercerRelTol }
 
 def main (args : List String) : IO UInt32 := do
   match args with
